@@ -125,11 +125,16 @@ package metrics
 
 //@ func (mw *Window) Add
 //@   opts trusted
+//@   ensures winLatest[mw] == m
+//@   ensures forall w *Window :: w != mw ==> winLatest[w] == old(winLatest[w])
 //@   modifies winLatest, heap(api.Metric), heap(Window)
 
 // "logging metrics while reading them": windows are only safe under the store lock
 //@ func (mtrs *Store) Add
-//@   property C18
+//@   property C18 C09
 //@   opts own
+//@   requires mtrs != nil && m != nil
+// "latest per peer": whatever it says (valid or not), the metric just received is the latest one of its peer and name
+//@   ensures [received-metric-is-the-latest] haskey(mtrs.byName, old(m.Name)) && haskey(mtrs.byName[old(m.Name)], old(m.Peer)) && winLatest[mtrs.byName[old(m.Name)][old(m.Peer)]] == m
 //@   at_call Window.Add assert [window-touched-under-the-store-lock] held(mtrs.mux)
 //@   modifies heap(Store), heap(api.Metric), heap(Window), winLatest
